@@ -1,8 +1,8 @@
 """C18 - remote contexts are unique per id, supply their workers' work, and clean up.
 
 Monitor: seeded histories over {create ctx i, create duplicate, delete ctx i,
-delete unknown, start worker in ctx i, start worker in unknown ctx, enqueue,
-wait} on ids 1-3 (distinct target/defaults per id) against a real server;
+delete unknown, start worker in ctx i, start worker in unknown ctx, unusable
+worker request naming ctx i, enqueue, wait} on ids 1-3 (distinct target/defaults per id) against a real server;
 oracle = dictionary model of the server's context table + server health."""
 import os
 
@@ -71,10 +71,16 @@ def case(spec, log):
                     rec['outcome'] = 'hang' if v is HANG else ('raised:' + type(v.exc).__name__ if isinstance(v, Raised) else 'value')
                 else:
                     rec['outcome'] = 'no-live-worker'
+            elif name == 'bad':
+                # a client that names context i, announces a worker and then fails to deliver a usable request
+                i, mode = op[1], op[2]
+                rec['outcome'] = bad_request(host, i, mode)
+                time.sleep(0.3)
             elif name == 'wait':
                 live = [(i, g, w) for (i, g, w) in workers if w.is_alive()]
                 if live:
                     i, g, w = live[op[1] % len(live)]
+                    rec['widx'] = [k for k, t in enumerate(workers) if t[2] is w][0]
                     r = bounded('wait_worker', lambda: w.wait(10), 40)
                     rec['outcome'] = repr(r) if not (r is HANG or isinstance(r, Raised)) else 'hang-or-raise'
                     rec['has_error'] = w.has_error
@@ -110,6 +116,54 @@ def case(spec, log):
             pass
 
 
+def bad_request(host, ctx_id, mode):
+    """Raw client: header naming the context (worker request), then an unusable worker payload."""
+    import pickle
+    import socket
+    import struct
+    from pyworkers.remote import send_msg
+    s = socket.socket(socket.AF_INET, socket.SOCK_STREAM)
+    s.settimeout(5)
+    try:
+        s.connect(tuple(host))
+        send_msg(s, (ctx_id, True), comment='verif: header')
+        if mode == 'garbage':
+            body = b'garbage, not a pickle'
+            s.sendall(struct.pack('!I', len(body)) + body)
+        elif mode == 'wrong-object':
+            body = pickle.dumps(('not', 'a', 'worker'))
+            s.sendall(struct.pack('!I', len(body)) + body)
+        elif mode == 'unknown-class':
+            import sys
+            import types
+            m = types.ModuleType('no_such_mod_verif')
+            cls = type('NoClass', (), {'__module__': 'no_such_mod_verif'})
+            m.NoClass = cls
+            sys.modules['no_such_mod_verif'] = m
+            try:
+                body = pickle.dumps(cls())
+            finally:
+                del sys.modules['no_such_mod_verif']
+            s.sendall(struct.pack('!I', len(body)) + body)
+        elif mode == 'half-message':
+            s.sendall(struct.pack('!I', 500) + b'x' * 40)
+        elif mode == 'close':
+            pass
+        try:
+            s.settimeout(0.5)
+            s.recv(16)
+        except OSError:
+            pass
+        return 'played'
+    except OSError as e:
+        return 'client-error:' + type(e).__name__
+    finally:
+        s.close()
+
+
+BAD_MODES = ['garbage', 'wrong-object', 'unknown-class', 'half-message', 'close']
+
+
 def gen_history(r):
     ops = []
     created = []
@@ -125,8 +179,10 @@ def gen_history(r):
             ops.append(['create', i])
         elif x < 0.45:
             ops.append(['delete', i])
-        elif x < 0.70:
+        elif x < 0.62:
             ops.append(['worker', i])
+        elif x < 0.72:
+            ops.append(['bad', i, r.choice(BAD_MODES)])
         elif x < 0.90:
             ops.append(['enqueue', r.randrange(10), r.randint(1, 9)])
         else:
@@ -143,6 +199,7 @@ def judge(chk, spec, res):
     table = {}        # model of the server's context table: id -> generation
     gen = {}
     probs = []
+    waited = set()
     for rec in steps:
         op = rec['op']
         name = op[0]
@@ -152,6 +209,13 @@ def judge(chk, spec, res):
             break
         if rec.get('outcome') == 'hang':
             probs.append('%s-blocks%s' % (name, '' if op[1] in table or name not in ('worker',) else '-unknown-context'))
+            break
+        if 'widx' in rec:
+            waited.add(rec['widx'])
+        # a worker ends only when it was waited for or its context was deleted
+        gone = [k for k, w in enumerate(rec['workers']) if not w[2] and k not in waited and table.get(w[0]) == w[1] and not (name == 'delete' and op[1] == w[0])]
+        if gone:
+            probs.append('worker-ended-while-its-context-exists-after-%s' % (name if name != 'bad' else 'bad-request-' + op[2]))
             break
         if name == 'create':
             i = op[1]
@@ -209,7 +273,7 @@ def judge(chk, spec, res):
 def run(tier):
     thorough = tier == 'thorough'
     chk = Check('C18', 'exploration', tier,
-                'seeded histories (3-8 operations) over {create ctx i, create duplicate, delete ctx i, delete unknown, worker in ctx i, worker in unknown ctx, enqueue, wait} on ids 1-3 with distinct target defaults per id, '
+                'seeded histories (3-8 operations) over {create ctx i, create duplicate, delete ctx i, delete unknown, worker in ctx i, worker in unknown ctx, unusable worker request naming ctx i (garbage / wrong object / unknown class / half message / close), enqueue, wait} on ids 1-3 with distinct target defaults per id, '
                 'each against a fresh real server; oracle = dictionary model of the context table; distinct non-trivial = distinct histories')
     r = rng('c18')
     jobs = [gen_history(r) for _ in range(300 if thorough else 60)]
@@ -218,6 +282,8 @@ def run(tier):
              dict(ops=[['create', 2], ['worker', 2], ['worker', 2], ['create', 3], ['worker', 3], ['delete', 2], ['enqueue', 0, 3], ['delete', 3]]),
              dict(ops=[['create', 1], ['create', 1], ['worker', 1], ['enqueue', 0, 3], ['delete', 1], ['create', 1], ['worker', 1], ['enqueue', 0, 4]]),
              dict(ops=[['worker', 2], ['delete', 2], ['create', 2], ['worker', 2], ['enqueue', 0, 5]]),
+             *[dict(ops=[['create', 1], ['worker', 1], ['enqueue', 0, 2], ['bad', 1, m], ['worker', 1], ['enqueue', 0, 3], ['enqueue', 1, 3], ['create', 1], ['delete', 1], ['create', 1], ['delete', 1]]) for m in BAD_MODES],
+             *[dict(ops=[['bad', 2, m], ['create', 2], ['worker', 2], ['enqueue', 0, 2]]) for m in BAD_MODES],
              dict(ops=[['create', 1], ['create', 2], ['create', 3], ['worker', 3], ['worker', 1], ['enqueue', 0, 2], ['enqueue', 1, 2], ['delete', 3]])]
     wd = workdir('c18')
 
